@@ -182,7 +182,7 @@ def showFlat (c : Circuit) : String :=
     | .node k q cr =>
       let qs := String.intercalate "." (q.map showReg)
       s!"{(showKind k).1}({qs}|{showNats' cr})"
-  let wires := c.regs.map fun r =>
+  let wires := c.qregs.map fun r =>
     let its := (c.flatWire r).map item
     s!"{showReg r}:{if its.isEmpty then "-" else String.intercalate "." its}"
   String.intercalate ";" wires
